@@ -307,6 +307,7 @@ def value_mode_scoped(ctx, cfg, fs, rule='P.precedence'):
     fam = fs.family(b)
     why = []
     n = 0
+    guarded_inline = False
     for x in fam:
         for (bb, fn, full) in fn_refs(x):
             if re.search(r'Comp::only_value$', fn):
@@ -317,6 +318,19 @@ def value_mode_scoped(ctx, cfg, fs, rule='P.precedence'):
                 rs = provenance(x, c.args[0], c.bb, 'term', through=None)
                 if x is not b:
                     why.append('only_value called inside a closure at %s' % x.where(c.bb)); continue
+                if rs and all(r.kind == 'call' and r.call.is_(r'Iterator>?::next$') for r in rs) and not any('Filter<' in r.call.full for r in rs):
+                    # the filter written as a guard at the top of the loop body: the question is only reached on the edge where
+                    # this hint's depth equals the maximum
+                    for (a_, s_) in b.transitive_control_deps(c.bb):
+                        if b.term(a_)['k'] != 'switch': continue
+                        sw = Switch(b, a_)
+                        for r in (sw.roots or []) if sw.kind == 'bool' else []:
+                            if r.kind == 'bin' and r.extra['op'] in ('Eq', 'Ne'):
+                                sides = [provenance(b, r.extra[k_], r.site[0], r.site[1], through=None) for k_ in ('a', 'b')]
+                                if any(x_ and all(q.kind == 'call' and q.call.is_(r'Comp::depth$') for q in x_) for x_ in sides) and s_ == sw.target(r.extra['op'] == 'Eq'):
+                                    guarded_inline = True
+                    if guarded_inline:
+                        continue
                 if not (rs and all(r.kind == 'call' and r.call.is_(r'Iterator>?::next$') and 'Filter<' in r.call.full for r in rs)):
                     why.append('only_value asked about %s at %s' % (sorted({(short(r.call.name) if r.kind == 'call' else r.kind) for r in rs}), x.where(c.bb)))
     flt = [c for c in b.calls() if c.is_(r'Iterator>?::filter$')]
@@ -325,6 +339,7 @@ def value_mode_scoped(ctx, cfg, fs, rule='P.precedence'):
         for r in provenance(b, c.args[1], c.bb, 'term', through=None):
             if r.kind == 'agg' and r.extra.get('closure') in fs.bodies and any(cc.is_(r'Comp::depth$') for cc in fs.bodies[r.extra['closure']].calls()):
                 depth_ok = True
+    depth_ok = depth_ok or guarded_inline
     ctx.ob(rule, 'Complete::complete:value-mode-from-active-level-only', n > 0 and not why and depth_ok,
            'Complete::complete asks only_value %d time(s), always about an element of the depth-filtered iterator (filter on depth present: %s): %s' % (n, depth_ok, why or 'ok'), where=b.where(), cfg=cfg)
 
